@@ -169,7 +169,7 @@ func init() {
 					distinct[in.canon()+fmt.Sprint(in.closedAt)] = true
 					if in.err != "" {
 						cs := map[string]any{"n": n, "base": base, "order": append([]int{}, p...), "drain_mask": mask}
-						rep.Violations = append(rep.Violations, vx.Violation{Clause: "reassembly-order-independent", Sig: "C02|reassembly", Msg: fmt.Sprintf("order %v drains %b base %d: %s", p, mask, base, in.err), Case: cs})
+						rep.Violations = append(rep.Violations, vx.Violation{Clause: "reassembly-order-independent", Sig: vx.Sig(c.Job, "reassembly-order-independent"), Msg: fmt.Sprintf("order %v drains %b base %d: %s", p, mask, base, in.err), Case: cs})
 						rep.Exhaustive = false
 						rep.CapHit = "stopped at first violation"
 						return false
@@ -288,7 +288,7 @@ func init() {
 						frontier = append(frontier, nh)
 					}
 					if msg != "" {
-						rep.Violations = append(rep.Violations, vx.Violation{Clause: "reassembly-order-independent", Sig: "C02|reassembly", Msg: fmt.Sprintf("base %d history %v: %s", base, nh, msg), Case: map[string]any{"n": n, "base": base, "history": fmt.Sprint(nh)}})
+						rep.Violations = append(rep.Violations, vx.Violation{Clause: "reassembly-order-independent", Sig: vx.Sig(c.Job, "reassembly-order-independent"), Msg: fmt.Sprintf("base %d history %v: %s", base, nh, msg), Case: map[string]any{"n": n, "base": base, "history": fmt.Sprint(nh)}})
 						rep.Exhaustive = false
 						rep.CapHit = "stopped at first violation"
 						break
